@@ -228,6 +228,15 @@ def known_signatures(prop):
 # shard execution
 
 
+_HEART = {"arr": None, "shard": 0}
+
+
+def _beat():
+    a = _HEART["arr"]
+    if a is not None:
+        a[_HEART["shard"]] = time.time()
+
+
 def _run_sub_hypothesis(sub, n, seed, rec, shrink, known, collect=False):
     import hypothesis
     from hypothesis import given, settings, HealthCheck, Phase, Verbosity
@@ -239,6 +248,7 @@ def _run_sub_hypothesis(sub, n, seed, rec, shrink, known, collect=False):
         phases.append(Phase.shrink)
 
     def body(spec):
+        _beat()
         try:
             sub.run_case(spec, rec)
         except Violation as v:
@@ -285,6 +295,8 @@ def _run_sub_hypothesis(sub, n, seed, rec, shrink, known, collect=False):
 def _run_shard(args):
     modname, shard, nshards, tier, seed, collect = args
     t0 = time.time()
+    _HEART["shard"] = shard
+    _beat()
     try:
         mod = importlib.import_module(modname)
         rec = Recorder()
@@ -300,6 +312,7 @@ def _run_shard(args):
                 for i, spec in enumerate(sub.enumerate(tier)):
                     if i % ns != shard:
                         continue
+                    _beat()
                     try:
                         sub.run_case(spec, rec)
                     except Violation as v:
@@ -320,6 +333,8 @@ def _run_shard(args):
                 f["sub"] = sub.name
                 fail = f
                 break
+        if _HEART["arr"] is not None:
+            _HEART["arr"][shard] = -1.0      # finished
         return {"shard": shard, "rec": rec.dump(), "fail": _enc(fail) if fail else None,
                 "error": None, "wall": time.time() - t0}
     except BaseException as e:  # harness fault inside the shard
@@ -478,16 +493,35 @@ def run_property(modname, tier, seed, nshards=None, collect=False):
     ctx = multiprocessing.get_context("fork")
     jobs = [(modname, i, nshards, tier, seed, collect) for i in range(nshards)]
     limit = float(os.environ.get("VERIF_TIMEOUT", "0")) or (1500.0 if tier == "quick" else 6 * 3600.0)
+    stall = float(os.environ.get("VERIF_STALL", "0")) or 300.0
+    _HEART["arr"] = ctx.Array("d", [time.time()] * nshards, lock=False)
     pool = ctx.Pool(nshards)
     try:
-        results = pool.map_async(_run_shard, jobs, chunksize=1).get(timeout=limit)
-    except multiprocessing.TimeoutError:
-        # a time budget hit is inconclusive, never a violation
-        pool.terminate()
-        _kill_children()
-        sys.stderr.write("HARNESS ERROR: shards did not finish within %.0f s (hang in the code under test or "
-                         "overloaded machine) - inconclusive\n" % limit)
-        return 2
+        ar = pool.map_async(_run_shard, jobs, chunksize=1)
+        t_start = time.time()
+        reason = None
+        while True:
+            ar.wait(5.0)
+            if ar.ready():
+                break
+            now = time.time()
+            if now - t_start > limit:
+                reason = "shards did not finish within %.0f s" % limit
+                break
+            # a shard that has started a case more than `stall` seconds ago and shown no sign of life since is
+            # stuck inside the code under test (e.g. a C kernel spinning or deadlocked after heap corruption)
+            stuck = [i for i in range(nshards) if _HEART["arr"][i] > 0 and now - _HEART["arr"][i] > stall]
+            if stuck:
+                reason = "shard(s) %r made no progress for %.0f s" % (stuck, stall)
+                break
+        if reason:
+            # a time budget hit is inconclusive, never a violation
+            pool.terminate()
+            _kill_children()
+            sys.stderr.write("HARNESS ERROR: %s (hang in the code under test or overloaded machine) - inconclusive\n" % reason)
+            print("INCONCLUSIVE property=%s %s" % (prop, reason))
+            return 2
+        results = ar.get()
     finally:
         pool.terminate()
         pool.join()
